@@ -21,6 +21,7 @@ def run(prog, chk):
     close_table(prog, chk)
     process_table(prog, chk)
     addleaf_table(prog, chk)
+    close_and_sign_table(prog, chk)
     from .C09 import work_buffer_rule
     work_buffer_rule(prog, chk, rule="C16.workbuf")     # a metadata leaf accepted into the tree must be serializable where its proof is extracted
     _run(prog, chk)
@@ -66,7 +67,9 @@ def _run(prog, chk):
     pr, lr_ = ordered(frst)
     if len(pn) < 2:
         raise AnalysisBroken("KSI_BlockSigner_new: leaf processor registration not found")
-    chk.ob("C16.reset", "BlockSigner:processor-order", pn == pr and ln_ == lr_,
+    # (which list they go to is judged by C16.resetstate on the evaluated function: comparing the spelling of the list expression
+    # reported the F72 repair, which reaches the same list through a local)
+    chk.ob("C16.reset", "BlockSigner:processor-order", pn == pr,
            "leaf processors appended by new: %s; by reset: %s (must be identical, metadata first)" % (pn, pr), loc=frst.loc(), fn=frst)
     sp = frst.params[0]["n"]
     facts = {"signature": False, "prevLeaf": False, "builder": False}
@@ -345,33 +348,107 @@ def reset_table(prog, chk):
     KSI_OK the signer is in the state KSI_BlockSigner_new leaves it in."""
     import itertools
     chk.rule("C16.resetstate", "reset: signature dropped, previous leaf rewound to the original one, fresh builder with both processors, "
-                               "whatever the signer held before (decision table)", floor=4)
+                               "whatever the signer held before; a failed reset leaves the signer as it was (decision table)", floor=12)
     fn = prog.fn("KSI_BlockSigner_reset", "blocksigner.c")
     sp = fn.params[0]["n"]
-    for has_sig, has_prev in itertools.product((0, 1), (0, 1)):
+    for has_sig, has_prev, fail in itertools.product((0, 1), (0, 1), (None, "builder", "append 1", "append 2")):
         inputs = {sp: Ptr("S"), "S->ctx": Ptr("ctx"), "S->builder": Ptr("OLDB"), "OLDB->algo": 1, "S->signature": Ptr("SIG") if has_sig else 0,
-                  "S->prevLeaf": Ptr("CURLEAF") if has_prev else 0, "S->origPrevLeaf": Ptr("ORIG") if has_prev else 0, "NEWB->cbList": Ptr("CBL")}
-        appended = []
+                  "S->prevLeaf": Ptr("CURLEAF") if has_prev else 0, "S->origPrevLeaf": Ptr("ORIG") if has_prev else 0, "NEWB->cbList": Ptr("CBL"), "OLDB->cbList": Ptr("OLDCBL")}
+        appended, freed = [], []
 
         def tbnew(I, p, node, args):
+            if fail == "builder":
+                return 0x200
             I.write(p, lvalue_key(strip(node["a"][2])["e"], I.fn), Ptr("NEWB"))
             return 0
-        ov = {"KSI_TreeBuilder_new": tbnew, "KSI_DataHash_ref": lambda I, p, n, a: a[0],
-              "KSI_TreeBuilderLeafProcessorList_append": lambda I, p, n, a: (appended.append(a[1]), 0)[1],
-              "KSI_Signature_free": lambda I, p, n, a: TOP, "KSI_TreeBuilder_free": lambda I, p, n, a: TOP, "KSI_DataHash_free": lambda I, p, n, a: TOP}
+
+        def append(I, p, node, args):
+            k = len(appended) + 1
+            if fail == "append %d" % k:
+                appended.append("(failed)")
+                return 0x200
+            appended.append(args[1] if args[0] == Ptr("CBL") else ("some other list", args[0]))
+            return 0
+        ov = {"KSI_TreeBuilder_new": tbnew, "KSI_DataHash_ref": lambda I, p, n, a: a[0], "KSI_TreeBuilderLeafProcessorList_append": append,
+              "KSI_Signature_free": lambda I, p, n, a: TOP, "KSI_TreeBuilder_free": lambda I, p, n, a: (freed.append(a[0]), TOP)[1], "KSI_DataHash_free": lambda I, p, n, a: TOP}
         I = Interp(fn, inputs=inputs, call_model=succeed_model(prog, ov), on_unknown="stop", prog=prog)
         paths = I.run()
         chk.paths += len(paths)
-        inst = "BlockSigner_reset[signature %s,previous leaf %s]" % ("held" if has_sig else "absent", "in use" if has_prev else "not used")
+        inst = "BlockSigner_reset[signature %s,previous leaf %s%s]" % ("held" if has_sig else "absent", "in use" if has_prev else "not used",
+                                                                      "" if fail is None else ", %s fails" % ("the new tree builder" if fail == "builder" else "processor " + fail))
         if len(paths) != 1 or paths[0].undetermined:
             raise AnalysisBroken("KSI_BlockSigner_reset: evaluation not determined for %s: %s" % (inst, [q.undetermined[:1] for q in paths]))
         q = paths[0]
         sig, prev, bld = I.read(q, "S->signature"), I.read(q, "S->prevLeaf"), I.read(q, "S->builder")
         procs = [str(a.what).split("->")[-1].split(".")[-1] if isinstance(a, Ptr) else a for a in appended]
-        ok = q.ret == 0 and sig == 0 and prev == (Ptr("ORIG") if has_prev else 0) and bld == Ptr("NEWB") and procs == ["metaDataProcessor", "maskingProcessor"]
-        chk.ob("C16.resetstate", inst, ok,
-               "expected: no signature, previous leaf = the original one, a new builder with the metadata then the masking processor; source: "
-               "status %s, signature %s, previous leaf %s, builder %s, processors %s" % (q.ret, sig, prev, bld, procs), loc=fn.loc(), fn=fn)
+        if fail is None:
+            ok = q.ret == 0 and sig == 0 and prev == (Ptr("ORIG") if has_prev else 0) and bld == Ptr("NEWB") and procs == ["metaDataProcessor", "maskingProcessor"]
+            what = ("expected: no signature, previous leaf = the original one, a new builder with the metadata then the masking processor; source: "
+                    "status %s, signature %s, previous leaf %s, builder %s, processors %s" % (q.ret, sig, prev, bld, procs))
+        else:
+            # refused: the signer as it was (old builder, not released), or completely reset - never a builder that lacks a processor
+            untouched = bld == Ptr("OLDB") and Ptr("OLDB") not in freed and sig == (Ptr("SIG") if has_sig else 0) and prev == (Ptr("CURLEAF") if has_prev else 0)
+            ok = q.ret not in (0, TOP) and untouched
+            what = ("expected an error and the signer as it was (its builder, signature and previous leaf); source: status %s, signature %s, previous leaf %s, "
+                    "builder %s (released: %s), processors on the new builder %s" % (hex(q.ret) if isinstance(q.ret, int) else q.ret, sig, prev, bld, freed, procs))
+        chk.ob("C16.resetstate", inst, ok, what, loc=fn.loc(), fn=fn, nontrivial=fail is not None)
+
+
+def close_and_sign_table(prog, chk):
+    """KSI_BlockSigner_closeAndSign closes the tree and signs its root; when signing fails (network, allocation) the call can be
+    repeated.  Evaluated over (tree already closed by an earlier call or not) x (signature already held) x (which step fails): the
+    tree is closed at most once over any sequence of calls, a failed signing leaves no signature, and a repeated call after a failed
+    signing goes on to sign the root it finds."""
+    import itertools
+    chk.rule("C16.closesign", "closeAndSign: the tree is closed once, a failed signing can be repeated, a signed block answers 'already closed' (decision table)", floor=6)
+    fn = prog.fn("KSI_BlockSigner_closeAndSign", "blocksigner.c")
+    sp = fn.params[0]["n"]
+    for closed, signed, fail in itertools.product((0, 1), (0, 1), (None, "close", "sign")):
+        if signed and not closed:
+            continue
+        calls = []
+
+        def tclose(I, p, node, args):
+            calls.append("close")
+            if closed:
+                return 0x10a          # KSI_INVALID_STATE: what the tree builder answers for a closed tree
+            if fail == "close":
+                return 0x200
+            I.write(p, "B->rootNode", Ptr("ROOT"))
+            return 0
+
+        def sign(I, p, node, args):
+            calls.append(("sign", args[1], args[2]))
+            if fail == "sign":
+                return 0x202
+            I.write(p, lvalue_key(strip(node["a"][-1])["e"], I.fn), Ptr("NEWSIG"))
+            return 0
+        ov = {"KSI_TreeBuilder_close": tclose, "KSI_Signature_signAggregated": sign, "KSI_Signature_signAggregatedWithPolicy": sign}
+        inputs = {sp: Ptr("S"), "S->ctx": Ptr("ctx"), "S->builder": Ptr("B"), "B->rootNode": Ptr("ROOT") if closed else 0, "ROOT->hash": Ptr("ROOTHASH"), "ROOT->level": 3,
+                  "S->signature": Ptr("OLDSIG") if signed else 0}
+        I = Interp(fn, inputs=inputs, call_model=succeed_model(prog, ov), on_unknown="stop", prog=prog)
+        paths = I.run()
+        chk.paths += len(paths)
+        inst = "closeAndSign[tree %s, %s%s]" % ("closed by an earlier call" if closed else "open", "signature held" if signed else "not signed yet",
+                                               "" if fail is None else ", %s fails" % ("closing" if fail == "close" else "signing"))
+        if len(paths) != 1 or paths[0].undetermined or paths[0].ret is TOP:
+            raise AnalysisBroken("KSI_BlockSigner_closeAndSign: evaluation not determined for %s: %s" % (inst, [q.undetermined[:1] for q in paths]))
+        q = paths[0]
+        sig = I.read(q, "S->signature")
+        signs = [c for c in calls if c != "close"]
+        if signed:
+            ok = q.ret != 0 and sig == Ptr("OLDSIG") and not signs
+            what = "expected a refusal, the held signature kept, nothing signed again; source: status %s, signature %s, calls %s" % (hex(q.ret) if isinstance(q.ret, int) else q.ret, sig, calls)
+        elif fail == "close" and not closed:
+            ok = q.ret != 0 and sig == 0 and not signs
+            what = "expected an error and nothing signed; source: status %s, signature %s, calls %s" % (hex(q.ret) if isinstance(q.ret, int) else q.ret, sig, calls)
+        elif fail == "sign":
+            ok = q.ret != 0 and sig == 0 and signs == [("sign", Ptr("ROOTHASH"), 3)]
+            what = "expected the signing error, no signature, the root offered for signing once; source: status %s, signature %s, calls %s" % (hex(q.ret) if isinstance(q.ret, int) else q.ret, sig, calls)
+        else:
+            ok = q.ret == 0 and sig == Ptr("NEWSIG") and signs == [("sign", Ptr("ROOTHASH"), 3)]
+            what = "expected KSI_OK with the root signed%s; source: status %s, signature %s, calls %s" % (" (the tree was closed by the call that failed to sign)" if closed else "", q.ret, sig, calls)
+        chk.ob("C16.closesign", inst, ok, what, loc=fn.loc(), fn=fn, nontrivial=bool(closed or fail))
 
 
 def prepend_table(prog, chk):
